@@ -12,7 +12,7 @@ def run(ctx):
     ctx.assume("equality of fundamental groups is decided through first homology and small-index class counts, as the statement says")
     ev = ctx.work / "events.ndjson"
     if ctx.quick:
-        ctx.dsv("C16", "drive", "--out", ev, "--max3d", 2, "--permille", 700, timeout=7200)
+        ctx.dsv("C16", "drive", "--out", ev, "--max3d", 3, "--permille", 500, timeout=7200)
     else:
         ctx.dsv("C16", "drive", "--out", ev, "--max3d", 3, "--permille", 1000, timeout=14400)
     for ln in open(ev):
